@@ -305,6 +305,9 @@ def fmt_float(x, prec=None):
 FORMAT_RE = re.compile(r'\{\{|\}\}|\{([^{}]*)\}')
 
 
+COVER = set()   # qualified names of every repository function whose body was evaluated in this process (what-was-analysed accounting)
+
+
 class Interp(object):
     def __init__(self, prog, fuel=3000000):
         self.p = prog
@@ -422,6 +425,7 @@ class Interp(object):
     def call_fn(self, fn, self_val, args, self_ty):
         self.calls += 1
         self.burn(5)
+        COVER.add(fn.qname)
         if self.trace_calls is not None:
             self.trace_calls.add(fn.qname)
         if fn.body is None:
